@@ -121,6 +121,13 @@ FrameClass(f) ==
   ELSE IF f.need < f.len THEN "trailing"
   ELSE "msg"
 
+\* "refused without reading or allocating the announced body": the largest single allocation
+\* request while a frame is being read.  A frame refused on its header costs nothing that depends on
+\* the frame; any other frame costs at most a constant factor of the bytes it actually carries
+\* (16 covers in-memory items that are larger than their wire form) - never something that
+\* depends on an item COUNT the body merely announces.
+AllocBound(f) == IF FrameClass(f) = "refused" THEN 65536 ELSE 16 * (HDR + f.body) + 65536
+
 \* Frame constructors used by the model-checking and trace modules
 Frame(k, t, magic, len, body, need, count, items, extra, att) ==
   [k |-> k, t |-> t, magic |-> magic, len |-> len, body |-> body, need |-> need,
